@@ -203,6 +203,35 @@ func c08Read(c *sim.Ctx, w *world.World, st *c08State, hi int, h *c08Handle, rep
 		if rc.Err == nil && !strsEqFold(rc.Strs, cols) {
 			c.Fail("stale-schema", "stale-columns:"+cfg, fmt.Sprintf("handle %s (opened at v%d) Columns(%s) at v%d = %v, SQLite: %v", h.name, h.opened, t.Name, w.Version, rc.Strs, cols), detail)
 		}
+		// the same few rowids looked up again and again through this handle (a lookup
+		// answered from what an earlier transaction saw is a stale read like any other)
+		if !t.WithoutRowid && len(t.Rowids) > 0 {
+			pick := []int{0, len(t.Rowids) - 1, len(t.Rowids) / 2}
+			for _, k := range pick {
+				rid := t.Rowids[k]
+				rr := ops.Run(h.d, ops.Op{Kind: "rowid", Table: t.Name, Rowid: rid, Cols: cols}, nil)
+				c.Eval(1)
+				if rr.Panic != nil || rr.Err != nil {
+					continue // errors are judged by the scan above
+				}
+				c.Probe("rowid-lookup-on-long-lived-handle")
+				wantRow := [][]sq.Val{projectRow(t, k, cols)}
+				if rr.NilRow || len(rr.Rows) != 1 {
+					c.Fail("stale-read", "stale-rowid-lookup:"+cfg, fmt.Sprintf("handle %s (opened at v%d) SelectRowid(%s, %d) at v%d found no row, SQLite has it", h.name, h.opened, t.Name, rid, w.Version), detail)
+				} else if eq, _ := rowsEqModDefaults(c, t, cols, wantRow, rr.Rows); !eq {
+					c.Fail("stale-read", "stale-rowid-lookup:"+cfg, fmt.Sprintf("handle %s (opened at v%d) SelectRowid(%s, %d) at v%d = %s, SQLite: %s", h.name, h.opened, t.Name, rid, w.Version, fmtRows(rr.Rows, 0), fmtRows(wantRow, 0)), detail)
+				}
+			}
+			// and a rowid that does not exist (it may have existed at an older version)
+			gone := t.Rowids[len(t.Rowids)-1]
+			if gone < 1<<62 {
+				rr := ops.Run(h.d, ops.Op{Kind: "rowid", Table: t.Name, Rowid: gone + 1, Cols: cols}, nil)
+				c.Eval(1)
+				if rr.Panic == nil && rr.Err == nil && !rr.NilRow {
+					c.Fail("stale-read", "stale-rowid-lookup:phantom:"+cfg, fmt.Sprintf("handle %s (opened at v%d) SelectRowid(%s, %d) at v%d returned a row, SQLite has none", h.name, h.opened, t.Name, gone+1, w.Version), detail)
+				}
+			}
+		}
 		// one index through this handle
 		if len(t.Indexes) > 0 {
 			ix := t.Indexes[s.Draw(len(t.Indexes), "ix")]
